@@ -19,7 +19,7 @@ VARIABLES s, call
 vars == <<s, call>>
 
 \* a B space newline e-acute grinning-face < & % ' + "
-AlphaWide == { <<97>>, <<66>>, <<32>>, <<10>>, <<195, 169>>, <<240, 159, 152, 128>>, <<60>>, <<38>>, <<37>>, <<39>>, <<43>> }
+AlphaWide == { <<97>>, <<66>>, <<32>>, <<10>>, <<195, 169>>, <<240, 159, 152, 128>>, <<60>>, <<38>>, <<37>>, <<39>>, <<43>>, <<34>> }
 AlphaCore == { <<97>>, <<66>>, <<32>>, <<195, 169>>, <<60>>, <<38>> }
 Alpha == IF Wide THEN AlphaWide ELSE AlphaCore
 
@@ -30,7 +30,10 @@ Strs == UNION {StrsOfLen(n) : n \in 0..N}
 ArgStrs == { <<>>, <<97>>, <<32>>, <<66, 97>>, <<195, 169>>, <<38>>, <<97, 97>> }
 NoArg == {"upcase", "downcase", "capitalize", "strip", "lstrip", "rstrip", "strip_newlines", "newline_to_br",
           "escape", "escape_once", "url_encode", "url_decode", "size"}
+\* chains of two argument-less filters (the second sees the output of the first: escape then escape_once, ...)
+Chains == [name : NoArg \ {"size"}, args : {<<>>}, then : NoArg]
 Calls ==
+  (IF N <= 2 THEN Chains ELSE {}) \cup
   [name : NoArg, args : {<<>>}]
   \cup [name : {"append", "prepend", "remove", "remove_first", "split"}, args : {<<Str(a)>> : a \in ArgStrs}]
   \cup [name : {"replace", "replace_first"}, args : {<<Str(a), Str(b)>> : a \in {<<97>>, <<32>>, <<195, 169>>, <<97, 97>>}, b \in {<<>>, <<66>>, <<97, 97>>}}]
@@ -42,25 +45,28 @@ Calls ==
 Init == s \in Strs /\ call \in Calls
 Next == UNCHANGED vars
 
-R == Filter(call.name, Str(s), call.args)
+R1 == Filter(call.name, Str(s), call.args)
+R == IF "then" \in DOMAIN call /\ R1.r = "val" THEN Filter(call.then, R1.v, <<>>) ELSE R1
 Dec == R.r = "val" /\ ~IsUnspec(R.v)
+Single == "then" \notin DOMAIN call
 App(name, x, args) == Filter(name, Str(x), args)
 
 \* ------------------------------------------------------------------ laws
-Utf8Preserved == (Dec /\ R.v.k = "str" /\ ValidUtf8(s) /\ call.name # "url_decode") => ValidUtf8(R.v.v)
-NeverLengthens == (Dec /\ call.name \in {"slice", "truncate", "strip", "lstrip", "rstrip", "remove", "remove_first"})
+Utf8Preserved == (Single /\ Dec /\ R.v.k = "str" /\ ValidUtf8(s) /\ call.name # "url_decode") => ValidUtf8(R.v.v)
+NeverLengthens == (Single /\ Dec /\ call.name \in {"slice", "truncate", "strip", "lstrip", "rstrip", "remove", "remove_first"})
                   => CharCount(R.v.v) <= CharCount(s)
-FitsUnchanged == (Dec /\ call.name = "truncate" /\ CharCount(s) <= call.args[1].v) => R.v.v = s
-FitsUnchangedWords == (Dec /\ call.name = "truncatewords" /\ s # <<>> /\ Len(SplitOn(s, <<32>>)) <= call.args[1].v) => R.v.v = s
-EscapeLeavesNoSpecials == (Dec /\ call.name \in {"escape", "escape_once"}) => ~HasRawSpecial(R.v.v)
-EscapeOnceIdempotent == (Dec /\ call.name = "escape_once") =>
+FitsUnchanged == (Single /\ Dec /\ call.name = "truncate" /\ CharCount(s) <= call.args[1].v) => R.v.v = s
+FitsUnchangedWords == (Single /\ Dec /\ call.name = "truncatewords" /\ s # <<>> /\ Len(SplitOn(s, <<32>>)) <= call.args[1].v) => R.v.v = s
+EscapeLeavesNoSpecials == (Single /\ Dec /\ call.name \in {"escape", "escape_once"}) => ~HasRawSpecial(R.v.v)
+EscapedIsFixedPoint == (Dec /\ call.name = "escape" /\ "then" \in DOMAIN call /\ call.then = "escape_once") => R = R1
+EscapeOnceIdempotent == (Dec /\ call.name = "escape_once" /\ "then" \notin DOMAIN call) =>
                           LET again == App("escape_once", R.v.v, <<>>) IN again.r = "val" => (IsUnspec(again.v) \/ again.v.v = R.v.v)
-UrlRoundTrip == (call.name = "url_encode" /\ Dec) => App("url_decode", R.v.v, <<>>) = FVal(Str(s))
-StripIsBoth == (call.name = "strip" /\ Dec) => R.v.v = LStrip(RStrip(s)) /\ R.v.v = RStrip(LStrip(s))
-CaseLaws == (call.name = "upcase" /\ Dec) =>
+UrlRoundTrip == (Single /\ call.name = "url_encode" /\ Dec) => App("url_decode", R.v.v, <<>>) = FVal(Str(s))
+StripIsBoth == (Single /\ call.name = "strip" /\ Dec) => R.v.v = LStrip(RStrip(s)) /\ R.v.v = RStrip(LStrip(s))
+CaseLaws == (Single /\ call.name = "upcase" /\ Dec) =>
                /\ App("upcase", R.v.v, <<>>) = R
                /\ App("downcase", R.v.v, <<>>) = App("downcase", s, <<>>)
-SizeCountsChars == (call.name = "size" /\ Dec) => R.v = IntV(Len(Chars(s)))
+SizeCountsChars == (Single /\ call.name = "size" /\ Dec) => R.v = IntV(Len(Chars(s)))
 SplitJoinInverse ==
   (call.name = "split" /\ Dec /\ call.args[1].v # <<>> /\ call.args[1].v # <<32>>) =>
      LET pieces == [i \in 1..Len(R.v.v) |-> R.v.v[i].v]
@@ -68,8 +74,8 @@ SplitJoinInverse ==
      IN  \* joining the pieces gives back s up to the trailing separators that split drops
          IsPrefixOf(JoinWith(pieces, sep), s)
          /\ (\A i \in 1..Len(pieces) : ~HasSub(pieces[i], sep))
-AppendPrepend == (call.name = "append" /\ Dec) => R.v.v = s \o call.args[1].v
-RemoveIsReplaceEmpty == (call.name = "remove" /\ Dec) => R = App("replace", s, <<call.args[1], Str(<<>>)>>)
+AppendPrepend == (Single /\ call.name = "append" /\ Dec) => R.v.v = s \o call.args[1].v
+RemoveIsReplaceEmpty == (Single /\ call.name = "remove" /\ Dec) => R = App("replace", s, <<call.args[1], Str(<<>>)>>)
 
 S0 == <<115>>
 ArgExprs == [i \in 1..Len(call.args) |-> [t |-> "lit", v |-> call.args[i]]]
@@ -80,9 +86,10 @@ Prog ==
           [t |-> "for", tag |-> "for", var |-> <<120>>, coll |-> [t |-> "var", name |-> <<114>>],
            body |-> <<[t |-> "text", s |-> <<91>>], [t |-> "obj", e |-> [t |-> "var", name |-> <<120>>]], [t |-> "text", s |-> <<93>>]>>],
           [t |-> "text", s |-> <<35>>], [t |-> "obj", e |-> [t |-> "var", name |-> S0]] >>
-  ELSE << [t |-> "obj", e |-> [t |-> "filter", e |-> [t |-> "var", name |-> S0], name |-> call.name, args |-> ArgExprs]],
+  ELSE << [t |-> "obj", e |-> (LET f1 == [t |-> "filter", e |-> [t |-> "var", name |-> S0], name |-> call.name, args |-> ArgExprs]
+                               IN  IF "then" \in DOMAIN call THEN [t |-> "filter", e |-> f1, name |-> call.then, args |-> <<>>] ELSE f1)],
           [t |-> "text", s |-> <<35>>], [t |-> "obj", e |-> [t |-> "var", name |-> S0]] >>
 
-EmitCase == PrintT(ToJson([id |-> ToString(<<s, call.name, call.args>>), kind |-> "render", f |-> call.name,
+EmitCase == PrintT(ToJson([id |-> ToString(<<s, call.name, call.args, IF "then" \in DOMAIN call THEN call.then ELSE "">>), kind |-> "render", f |-> call.name,
                            prog |-> Prog, env |-> << <<S0, Str(s)>> >>]))
 =============================================================================
